@@ -57,7 +57,10 @@ type World struct {
 	rets   map[retKey]ISet
 	rolesCache map[string]*ssa.Function
 	encCache   map[*ssa.Function]*encInfo
-	decCache   map[*ssa.Function]*[256]tagRun
+	decCache   map[*ssa.Function]*decTab
+	wCache     map[*ssa.Function]*writerInfo
+	dispCache  map[string]*dispatch
+	etsCache   map[string]ISet
 }
 
 
